@@ -150,7 +150,11 @@ func runC04(t *testing.T, c FaultCase) (*h.Violation, h.Info) {
 		if f != nil {
 			exprs, limit = f.inject()
 		}
-		o := runChild(dir, exprs, mode, path, fmt.Sprint(limit), string(opJSON), string(retryJSON))
+		args := []string{mode, path, fmt.Sprint(limit), string(opJSON), string(retryJSON)}
+		if f != nil && f.Seq%2 == 0 {
+			args = append(args, "same") // every other fault of the plan: the client repeats the identical call first
+		}
+		o := runChild(dir, exprs, args...)
 		return o, dir, path
 	}
 	// 2. dry run: the syscalls of the window
@@ -182,6 +186,7 @@ func runC04(t *testing.T, c FaultCase) (*h.Violation, h.Info) {
 			defer wg.Done()
 			defer func() { <-sem }()
 			f := plan[i]
+			f.Seq = i
 			o, dir, path := run(&f)
 			defer os.RemoveAll(dir)
 			results[i] = faultResult{f: f, fired: o.Err == nil && fired(f, o)}
@@ -316,6 +321,25 @@ func judge(f Fault, o runOut, path string, create bool, op dbx.Op, preBytes []by
 		if onDisk != want {
 			return h.V("failed-call-leaves-file-unchanged", "the call reported %q, but the file on disk is no longer the pre-call file (now: %s, before: %s)", r.Err, onDisk, want)
 		}
+	}
+	if same, ok := stdoutField(o.Stdout, "SAME"); ok {
+		// the identical call was repeated straight after the failure: it must now succeed, be served, and be on disk
+		if !strings.Contains(same, `"class":"ok"`) {
+			return h.V("later-calls-succeed-normally", "after the call reported %q, the identical call repeated at once failed too: %s", r.Err, same)
+		}
+		memS, _ := stdoutField(o.Stdout, "DUMPSAME")
+		if unquote(memS) != postR {
+			return h.V("later-calls-succeed-normally", "after the repeated call succeeded the process serves %s, model says %s", unquote(memS), postR)
+		}
+		d, err := dbx.OpenDiscard(path+".same", key)
+		if err != nil {
+			return h.V("later-calls-succeed-normally", "the file as it was after the repeated, acknowledged call does not open: %v", err)
+		}
+		kv, err := dbx.Dump(d)
+		if err != nil || kv.Render(false) != postR {
+			return h.V("acknowledged-retry-is-on-disk", "the call failed (%q) and was repeated at once with success, but the file on disk then held\n    %s (%v)\n  expected\n    %s", r.Err, kv.Render(false), err, postR)
+		}
+		wantAfterRetry = postRetryR
 	}
 	if !strings.Contains(retry, `"class":"ok"`) {
 		return h.V("later-calls-succeed-normally", "after the call reported %q (%s), the next mutating call failed: %s", r.Err, r.Class, retry)
